@@ -335,7 +335,9 @@ def c12(tier):
 
 def c13(tier):
     v = Verdict("C13", tier)
-    cases = tlc_cases(v, "intended/StmtKv.cfg" if tier != "thorough" else "intended/StmtKvT.cfg")
+    cases = tlc_cases(v, "intended/StmtKv.cfg")
+    if tier == "thorough":
+        cases += tlc_cases(v, "intended/StmtKvT.cfg")
     r = run_tlc("MCStmt.tla", "asfound/StmtInsertPoint.cfg", workers=4, coverage=False)
     if r.violated not in ("RoundTrip", "StillAccepted"):
         raise ToolError("as-found insertion point not refuted by TLC: %s" % r.violated)
